@@ -1,11 +1,11 @@
 #!/usr/bin/env python3
 """tools/rs2v_loops.py — TRANSLATOR: the LOOP functions of bnum's arithmetic core  ->  coq/Generated/Loops.v
 
-Reads $BNUM_REPO (default /repo) src/buint/{overflowing,const_trait_fillers,mul,mod,ops,checked}.rs, takes the
-`const fn`s listed in WANTED out of their `macro_rules!` bodies and translates each into a Gallina function over
+Reads $BNUM_REPO (default /repo) src/buint/{overflowing,const_trait_fillers,mul,mod,ops,checked,wrapping,cast,convert}.rs and
+src/bint/overflowing.rs, takes the functions listed in WANTED out of their `macro_rules!` bodies and translates each into a Gallina function over
 the control-flow vocabulary of coq/Model/Imp.v (res monad, arr_get/arr_set, usub, while_loop on explicit fuel) and
 the primitive vocabulary of coq/Prim.v, coq/Model/DigitPrims.v, coq/Model/LoopPrims.v, coq/Generated/DigitGen.v.
-coq/Proofs/LoopsTie.v proves every generated function equal to the hand-written model, for all inputs: an edit of
+coq/Proofs/LoopsTie*.v prove every generated function equal to the hand-written model, for all inputs: an edit of
 the Rust source that changes behaviour breaks a proof obligation.  Anything outside the supported subset makes the
 translator fail loudly (exit 1).  See tools/LOOPS_TRANSLATOR.md for the subset and the translation scheme."""
 import re, sys, os
@@ -1683,7 +1683,7 @@ def main():
     if not re.search(r"pub\s+struct\s+\$BUint\s*<\s*const\s+N\s*:\s*usize\s*>\s*\{\s*(#\[[^\]]*\]\s*)*(pub\s*(\([^)]*\))?\s*)?digits\s*:\s*\[\s*\$Digit\s*;\s*N\s*\]\s*,?\s*\}", usrc):
         die("src/buint/mod.rs: `struct $BUint<const N: usize> { digits: [$Digit; N] }` has changed")
 
-    out = ["(* GENERATED on every run by tools/rs2v_loops.py from /repo/src/buint/{overflowing,const_trait_fillers,mul,mod,ops,checked,wrapping}.rs",
+    out = ["(* GENERATED on every run by tools/rs2v_loops.py from /repo/src/buint/{overflowing,const_trait_fillers,mul,mod,ops,checked,wrapping,cast,convert}.rs",
            "   and /repo/src/bint/overflowing.rs.  Do not edit.  Proofs/LoopsTie*.v prove each function equal to the hand-written model.",
            "   Vocabulary: Model/Imp.v (control flow), Prim.v, Model/DigitPrims.v, Model/LoopPrims.v, Generated/DigitGen.v;",
            "   calls of $BUint methods that are not re-translated are calls of the hand-written model (qualified: Mul.U_overflowing_mul ..). *)",
